@@ -23,6 +23,8 @@ Batches (OG.C11.Batch) are answered against a second catalogue, built by:
         → map <mst>=<sorted shard ids> …                                          | err panic
   alive <online 0|1,…> <owner,owner…> <r|w> <hard-write 0|1>    (OG.C11.Alive.aliveWAF)
         → alive <i,i…|->                                                          | err panic
+  fieldkey <name> <key,key…> <k=v+k=v…|-> <fieldkey=strvalue+…|->   (shardKeyByField)
+        → key <string>                                             | err missing-shard-key
 
 `hash` is instantiated with xxhash64 (seed 0), as `meta.HashID`.
 -/
@@ -327,6 +329,14 @@ def stepC (C : Catalogue) (toks : List String) : Option (Catalogue × String) :=
       | some l => some (C, "alive " ++ (if l.isEmpty then "-" else ",".intercalate (l.map toString)))
       | none => some (C, "err panic")
     else none
+  | ["fieldkey", name, key, tags, fields] => do
+    let n ← parseStr name
+    let k ← parseList parseStr "," key
+    let t ← parseList parseTag "+" tags
+    let f ← parseList parseTag "+" fields
+    match shardKeyByField n k t f with
+    | .ok sk => some (C, "key " ++ showStr sk)
+    | .error e => some (C, showErr e)
   | "batch" :: rows => do
     let rs ← rows.mapM parseRow
     some (C, showBatch rs.length (routeBatch true true hashID C rs))
@@ -374,7 +384,8 @@ def step (M : Meta) (line : String) : Meta × String :=
 
 def isCatOp (line : String) : Bool :=
   line.startsWith "cat " || line.startsWith "cmst " || line.startsWith "cgroup " || line.startsWith "batch" ||
-    line.startsWith "mapq " || line.startsWith "mapsub " || line.startsWith "alive "
+    line.startsWith "mapq " || line.startsWith "mapsub " || line.startsWith "alive " ||
+    line.startsWith "fieldkey "
 
 partial def loop (h : IO.FS.Stream) (out : IO.FS.Stream) (s : DState) : IO Unit := do
   let line ← h.getLine
